@@ -1015,3 +1015,42 @@ func (w *World) MutateKind(ident bool) string {
 	w.Mutate()
 	return "other"
 }
+
+// NearBalanced: a random group with mixed subscriptions whose members report (one generation) the plan the sticky strategy
+// itself computed for them, perturbed by moving the claims of k random partitions to random members. Nobody starts empty
+// in most of these, and performReassignments has little to gain.
+func NearBalanced(r *rand.Rand, maxM, maxT, maxP, k int) (Input, bool) {
+	w := NewWorldIdent(rand.New(rand.NewSource(r.Int63())), 2+r.Intn(maxM-1), 1+r.Intn(maxT), maxP, false)
+	in := w.Input(false)
+	run := RunSticky(in)
+	if run.Hang || run.RawPlan == nil {
+		return in, false
+	}
+	own := Owners(run.Plan)
+	var parts []TP
+	for p := range own {
+		parts = append(parts, p)
+	}
+	sort.Slice(parts, func(i, j int) bool { return parts[i].T < parts[j].T || (parts[i].T == parts[j].T && parts[i].P < parts[j].P) })
+	if len(parts) == 0 {
+		return in, false
+	}
+	ids := make([]string, len(in.Members))
+	for i, m := range in.Members {
+		ids[i] = m.ID
+	}
+	for i := 0; i < k; i++ {
+		own[parts[r.Intn(len(parts))]] = ids[r.Intn(len(ids))]
+	}
+	for i := range in.Members {
+		claim := map[string][]int32{}
+		for _, p := range parts {
+			if own[p] == in.Members[i].ID {
+				claim[p.T] = append(claim[p.T], p.P)
+			}
+		}
+		b, _ := sarama.BalanceStrategySticky.AssignmentData("", claim, 5)
+		in.Members[i].Data = b
+	}
+	return in, true
+}
